@@ -21,10 +21,30 @@ type g struct {
 	emptyN  int
 	willN   int
 	tier    string
+	force   []int // forced values for pick (enumerations)
 }
 
 func newGen(seed uint64, prop string, idx int, tier string) *g {
 	return &g{r: simrt.NewRand(world.RunSeed(seed, prop+"/script", idx)), sc: &Script{}, tier: tier}
+}
+
+// pick returns the next forced choice if there is one, a random one otherwise.
+func (x *g) pick(n int) int {
+	if len(x.force) > 0 {
+		v := x.force[0] % n
+		x.force = x.force[1:]
+		return v
+	}
+	return x.r.Intn(n)
+}
+
+func (x *g) pickP(num, den int) bool {
+	if len(x.force) > 0 {
+		v := x.force[0]
+		x.force = x.force[1:]
+		return v != 0
+	}
+	return x.r.Bool(num, den)
 }
 
 func (x *g) knobs() {
@@ -1444,18 +1464,54 @@ func genKeepAlive(prop string) func(tier string, seed uint64, idx int) interface
 // genTeardown is the C16 profile: end cause x buffer condition x order.
 func genTeardown(prop string) func(tier string, seed uint64, idx int) interface{} {
 	return func(tier string, seed uint64, idx int) interface{} {
-		x := newGen(seed, prop, idx, tier)
+		return teardownScript(newGen(seed, prop, idx, tier))
+	}
+}
+
+// enumTeardown enumerates the grid buffer condition x end causes x order x
+// barrier x Server.Close completely (the remaining details of each script are
+// seeded by the grid index).
+func enumTeardown(tier string) []interface{} {
+	var out []interface{}
+	n := 0
+	for cond := 0; cond < 4; cond++ {
+		for closeSrv := 0; closeSrv < 2; closeSrv++ {
+			for c1 := 0; c1 < 3; c1++ {
+				for order := 0; order < 2; order++ {
+					for barrier := 0; barrier < 2; barrier++ {
+						for c2 := 0; c2 < 4; c2++ { // 3 = the second connection is not ended (or the stalled one resumes)
+							n++
+							x := &g{r: simrt.NewRand(uint64(n) * 7919), sc: &Script{}, tier: tier}
+							// forced choices, in the order in which teardownScript picks
+							switch cond {
+							case 0:
+								x.force = []int{cond, closeSrv, c2 % 4, c1}
+							default:
+								x.force = []int{cond, closeSrv, order, c1, barrier, c2}
+							}
+							out = append(out, teardownScript(x))
+						}
+					}
+				}
+			}
+		}
+	}
+	return out
+}
+
+func teardownScript(x *g) interface{} {
+	{
 		r := x.r
 		x.sc.Profile = "teardown"
 		x.knobs()
 		x.sc.Knobs.BufSize = 16384
 		x.sc.Knobs.LinkCap = []int{64, 256, 1024}[r.Intn(3)]
 		x.alphabet(false)
-		cond := r.Intn(4) // 0 idle, 1 own out-ring full, 2 in-ring full behind a third party, 3 cross-blocked pair
+		cond := x.pick(4) // 0 idle, 1 own out-ring full, 2 in-ring full behind a third party, 3 cross-blocked pair
 		nc := 4
 		x.seq = make([]int, nc)
 		x.pid = make([]int, nc)
-		x.sc.Knobs.CloseServer = r.Bool(1, 6)
+		x.sc.Knobs.CloseServer = x.pickP(1, 6)
 		mk := func(ci int, ka int, clean bool, will bool) Op {
 			op := Op{K: "connect", CID: fmt.Sprintf("t%d", ci), Clean: clean, KA: ka}
 			if will {
@@ -1479,7 +1535,7 @@ func genTeardown(prop string) func(tier string, seed uint64, idx int) interface{
 		}
 		cause := func(target int) []Op {
 			// how the connection of client `target` ends (executed by the killer)
-			switch r.Intn(3) {
+			switch x.pick(3) {
 			case 0:
 				return []Op{{K: "kill", Target: target, How: "fin"}}
 			case 1:
@@ -1497,7 +1553,7 @@ func genTeardown(prop string) func(tier string, seed uint64, idx int) interface{
 		case 0:
 			a.Ops = append(a.Ops, mk(0, ka(), r.Bool(1, 2), r.Bool(1, 2)), x.sub(0, 2))
 			b.Ops = append(b.Ops, mk(1, ka(), r.Bool(1, 2), r.Bool(1, 2)), x.pub(1, 2), x.pub(1, 2))
-			switch r.Intn(4) {
+			switch x.pick(4) {
 			case 0:
 				a.Ops = append(a.Ops, Op{K: "disc"})
 			case 1:
@@ -1521,14 +1577,15 @@ func genTeardown(prop string) func(tier string, seed uint64, idx int) interface{
 			b.Ops = append(b.Ops, flood(1, "t/x", total)...)
 			killer.Ops = append(killer.Ops, Op{K: "barrier"}, Op{K: "barrier"})
 			first, second := 0, 1
-			if r.Bool(1, 2) {
+			if x.pick(2) == 1 {
 				first, second = 1, 0
 			}
 			killer.Ops = append(killer.Ops, cause(first)...)
-			if r.Bool(1, 2) {
+			if x.pick(2) == 1 {
 				killer.Ops = append(killer.Ops, Op{K: "barrier"})
 			}
-			if r.Bool(2, 3) {
+			if c2 := x.pick(4); c2 < 3 {
+				x.force = append([]int{c2}, x.force...)
 				killer.Ops = append(killer.Ops, cause(second)...)
 			} else if second == 0 {
 				killer.Ops = append(killer.Ops, Op{K: "resumeother", Target: 0})
@@ -1542,14 +1599,17 @@ func genTeardown(prop string) func(tier string, seed uint64, idx int) interface{
 			b.Ops = append(b.Ops, flood(1, "b/x", 3*16384)...)
 			killer.Ops = append(killer.Ops, Op{K: "barrier"}, Op{K: "barrier"})
 			first, second := 0, 1
-			if r.Bool(1, 2) {
+			if x.pick(2) == 1 {
 				first, second = 1, 0
 			}
 			killer.Ops = append(killer.Ops, cause(first)...)
-			if r.Bool(1, 2) {
+			if x.pick(2) == 1 {
 				killer.Ops = append(killer.Ops, Op{K: "barrier"})
 			}
-			killer.Ops = append(killer.Ops, cause(second)...)
+			if c2 := x.pick(4); c2 < 3 {
+				x.force = append([]int{c2}, x.force...)
+				killer.Ops = append(killer.Ops, cause(second)...)
+			}
 		}
 		killer.Ops = append(killer.Ops, Op{K: "barrier"}, Op{K: "sleep", D: 100}, Op{K: "barrier"})
 		// prober: after everything, look at what is left of the two identities
@@ -1629,4 +1689,65 @@ func genFanIn(prop string) func(tier string, seed uint64, idx int) interface{} {
 		}
 		return x.sc
 	}
+}
+
+// connectScript wraps a first packet into a C11 script: witness, attacker,
+// prober with the attacker's client identifier.
+func connectScript(x *g, cid string, first []byte, authn string) *Script {
+	x.sc.Profile = "connect"
+	x.knobs()
+	x.sc.Knobs.LinkCap = 65536
+	x.sc.Knobs.Authenticator = authn
+	x.alphabet(false)
+	x.seq = make([]int, 3)
+	x.pid = make([]int, 3)
+	w := Client{Role: "witness"}
+	wc := x.connect(0, true)
+	wc.Auth, wc.User, wc.Pass = true, "w", "secret-w"
+	w.Ops = append(w.Ops, wc, Op{K: "sub", PID: 1, Filters: []string{"#"}, QoSs: []byte{2}}, Op{K: "barrier"}, Op{K: "barrier"}, Op{K: "barrier"}, Op{K: "ping"})
+	a := Client{Role: "attacker"}
+	a.Ops = append(a.Ops, Op{K: "barrier"}, Op{K: "open"}, Op{K: "raw", Raw: first})
+	a.Ops = append(a.Ops, Op{K: "raw", Raw: refmqtt.Encode(&refmqtt.Packet{Type: refmqtt.SUBSCRIBE, ID: 7, Filters: []string{"#"}, QoSs: []byte{1}})})
+	a.Ops = append(a.Ops, Op{K: "raw", Raw: refmqtt.Encode(&refmqtt.Packet{Type: refmqtt.PUBLISH, Topic: "c11/r1", Retain: true, Payload: payload(1, 1, 16)})})
+	a.Ops = append(a.Ops, Op{K: "sleep", D: 3000}, Op{K: "close"}, Op{K: "barrier"}, Op{K: "barrier"})
+	pr := Client{Role: "prober"}
+	pc := Op{K: "connect", CID: cid, Clean: false, KA: 600, Auth: true, User: "p", Pass: "secret-p"}
+	pr.Ops = append(pr.Ops, Op{K: "barrier"}, Op{K: "barrier"}, pc, Op{K: "sub", PID: 1, Filters: []string{"#"}, QoSs: []byte{1}}, Op{K: "ping"}, Op{K: "barrier"})
+	x.sc.Clients = append(x.sc.Clients, w, a, pr)
+	return x.sc
+}
+
+// enumConnect enumerates every CONNECT flags byte (with exactly the payload
+// fields the flags announce), the protocol name/level variants, and each of
+// the other 13 packet types as first packet.
+func enumConnect(tier string) []interface{} {
+	var out []interface{}
+	n := 0
+	mk := func(first []byte, authn string) {
+		n++
+		x := &g{r: simrt.NewRand(uint64(n) * 104729), sc: &Script{}, tier: tier}
+		out = append(out, connectScript(x, "enum", first, authn))
+	}
+	for flags := 0; flags < 256; flags++ {
+		p := &refmqtt.Packet{Type: refmqtt.CONNECT, ClientID: "enum", KeepAlive: 60, ConnFlags: byte(flags), WillTopic: "c11/will", WillMessage: payload(srcWill+1, 950, 12), User: "u1", Pass: []byte("secret-u1")}
+		if flags == 0 {
+			// Encode derives the flags when ConnFlags is 0: CleanSession=0, nothing else
+			p.ConnFlags = 0
+		}
+		authn := ""
+		if flags&0xc0 == 0xc0 && flags%2 == 0 {
+			authn = "verifPass"
+		}
+		mk(refmqtt.Encode(p), authn)
+	}
+	for _, pv := range []struct {
+		name  string
+		level byte
+	}{{"MQTT", 4}, {"MQIsdp", 3}, {"MQTT", 3}, {"MQTT", 5}, {"MQIsdp", 4}, {"MQTX", 4}, {"", 4}} {
+		mk(refmqtt.Encode(&refmqtt.Packet{Type: refmqtt.CONNECT, ClientID: "enum", KeepAlive: 60, ConnFlags: 2, ProtoName: pv.name, ProtoLevel: pv.level}), "")
+	}
+	for t := byte(2); t <= 14; t++ {
+		mk(refmqtt.Encode(samplePacket(t, int(t))), "")
+	}
+	return out
 }
